@@ -27,5 +27,12 @@ for xl, dl in [(0, 0), (1, 1), (1, 5), (2, 0), (2, 1), (2, 3), (3, 2), (3, 30), 
 H.append(dict(name="residue.Pick-cofactor6", pkg="./group/p256", files=["harness/C04/residue.go"], entry="HarnessResiduePick", mode="int", replay_entry="HarnessResiduePickReplay", unwind=64, loop_assume={"Embed": 1}, globals=["one", "two"],
               stubs=["math/big.Int as mathematical integers; Exp by square-and-multiply in the encoding; Jacobi = arbitrary value in {-1,0,1}"],
               functions=["p256.(*residuePoint).Pick", "p256.(*residuePoint).Embed", "p256.(*residuePoint).Valid", "random.Bits"], bound="residue group P=31, Q=5, cofactor 6; arbitrary stream; the first candidate is the one accepted (stated assumption: a retry repeats the same test on fresh bytes)"))
+for vl, lb in [(32, 0), (32, 1), (32, 29), (32, 30), (32, 31), (32, 32), (32, 255), (31, 29), (31, 30), (16, 5), (16, 31), (2, 1), (1, 0), (1, 29), (1, 30), (1, 200), (0, 0)]:
+    H.append(dict(name="vartime.Data-ybytes%d-lenbyte%d" % (vl, lb), pkg="./group/edwards25519vartime", files=["harness/C17/vartime_data.go"], entry="HarnessVartimeData", mode="int", params={"p0": vl, "p1": lb},
+                  globals=["verifCurve17"], validate=3, unwind=80, timeout_ms=120000,
+                  stubs=["math/big.Int as mathematical integers; Bytes() has the length determined by the value's interval (case split on the byte length of y)"],
+                  functions=["edwards25519vartime.(*curve).data", "edwards25519vartime.(*curve).encodePoint", "edwards25519vartime.(*curve).embedLen", "mod.(*Int).MarshalBinary"],
+                  bound="Ed25519 parameters; y with a %d-byte minimal encoding (arbitrary content), length byte %d, x arbitrary" % (vl, lb),
+                  tiers=(["quick", "thorough"] if (vl, lb) in ((32, 0), (32, 29), (32, 30), (32, 31), (32, 255), (1, 30), (0, 0)) else ["thorough"])))
 json.dump(dict(property="C17", harnesses=H), open(os.path.join(os.path.dirname(__file__), "..", "specs", "C17.json"), "w"), indent=1)
 print(len(H))
